@@ -189,6 +189,16 @@ def plan(tier):
             CASES.append((spec, p1))
     for spec in corpus.collision_pack() + corpus.merge_pack():
         CASES.append((spec, p1 + p2))
+    # integer keys WITHOUT a text twin (reached by the key segment's
+    # text-to-integer fall-back), alone and above further levels
+    for spec in (("m", (("a", ("m", ((0, "a"), (1, ("m", (("a", 1000),)))))),)),
+                 ("m", ((0, ("m", (("a", 1000), ("b", "a")))), (1, "a"))),
+                 ("l", (("m", ((1, ("l", ("a", 1000))),)),))):
+        CASES.append((spec, p1 + p2 + [
+            rp((("key", "a"), ("key", "1"), ("key", "a"))),
+            rp((("key", "0"), ("key", "a"), ("kw", "parent", (), False))),
+            rp((("key", "a"), ("key", "1"), ("kw", "parent", (), False))),
+            rp((("idx", 0), ("key", "1"), ("idx", 0)))]))
     CASES += punct_cases()
     CASES += climb_cases()
     CASES += anchored_child_cases()
